@@ -469,6 +469,10 @@ theorem ownerOf_inside (k : Kind) (σ n0 n1 : Nat) : Inside (ownerOf k σ n0 n1)
       | succ m => rw [Nat.succ_mul]; simp; omega
   | symm => simp only [ownerOf, extentOf, dataVolume]; by_cases h0 : n0 = 0 <;> simp [h0]
   | tri => simp only [ownerOf, extentOf, dataVolume]; by_cases h0 : n0 = 0 <;> simp [h0]
+  | diag => simp only [ownerOf, extentOf, dataVolume]; by_cases h0 : n0 = 0 <;> simp [h0]
+  | adiag => simp only [ownerOf, extentOf, dataVolume]; by_cases h0 : n0 = 0 <;> simp [h0]
+  | asymm => simp only [ownerOf, extentOf, dataVolume]; by_cases h0 : n0 = 0 <;> simp [h0]
+  | dvec => simp only [ownerOf, extentOf, dataVolume]; by_cases h0 : n0 = 0 <;> simp [h0]; omega
 
 /-- an object without elements addresses nothing -/
 theorem cells_of_len_zero {o : Obj} (h : o.len = 0) : cells o = [] := by
@@ -757,7 +761,7 @@ theorem newAt_inv {s s' : St} {k : Kind} {n0 n1 v0 : Int} (I : Inv s) (hs : s.th
       exact erase_thrown_inv (push_blank_inv I k) hr ht hs
     · cases h; exact resizeAt_inv (push_blank_inv I k) hr
 
-theorem newExternalAt_inv {s s' : St} {x off : Nat} {n : Int} (I : Inv s) (h : newExternalAt s x off n = .ok s') : Inv s' := by
+theorem newExternalAt_inv {s s' : St} {x off : Nat} {n : Int} {dm : Bool} (I : Inv s) (h : newExternalAt s x off n dm = .ok s') : Inv s' := by
   unfold newExternalAt at h
   cases he : s.exts[x]? with
   | none => simp [he] at h
@@ -1069,7 +1073,7 @@ theorem inv_stepCore {s s' : St} (op : Op) (I : Inv s) (hs : s.thrown = false) (
   | xend x => exact xendAt_inv I h
   | new k n0 n1 v0 => exact newAt_inv I hs h
   | newEmpty k => simp [stepCore, newEmptyAt] at h; subst h; exact push_blank_inv I k
-  | newExternal x off n => exact newExternalAt_inv I h
+  | newExternal x off n dm => exact newExternalAt_inv I h
   | copyCtor j => exact copyCtorAt_inv I h
   | view j f => exact viewAt_inv I h
   | softLink j => exact softLinkAt_inv I h
@@ -1248,8 +1252,8 @@ theorem softLink_holds_nothing {s s' : St} {j : Nat} {b : Obj} (h : softLinkAt s
   cases h; exact ⟨rfl, rfl, rfl, rfl⟩
 
 /-- array over external memory: no storage, no count touched -/
-theorem newExternal_holds_nothing {s s' : St} {x off : Nat} {n : Int} (h : newExternalAt s x off n = .ok s') :
-    s'.pool = s.pool ++ [{ kind := .vec, region := .ext x, off := off, storage := none, len := n.toNat, stride := 1 }] ∧
+theorem newExternal_holds_nothing {s s' : St} {x off : Nat} {n : Int} {dm : Bool} (h : newExternalAt s x off n dm = .ok s') :
+    (∃ o, s'.pool = s.pool ++ [o] ∧ o.region = .ext x ∧ o.storage = none) ∧
     s'.heap = s.heap ∧ s'.created = s.created ∧ s'.deleted = s.deleted := by
   unfold newExternalAt at h
   split at h
@@ -1257,7 +1261,7 @@ theorem newExternal_holds_nothing {s s' : St} {x off : Nat} {n : Int} (h : newEx
   · split at h
     · cases h
     · split at h
-      · cases h; exact ⟨rfl, rfl, rfl, rfl⟩
+      · cases h; exact ⟨⟨_, rfl, rfl, rfl⟩, rfl, rfl, rfl⟩
       · cases h
 
 theorem addLink_pool {s s' : St} {σ : Nat} (h : addLink s σ = .ok s') : s'.pool = s.pool := by
@@ -1960,7 +1964,7 @@ theorem no_storage_faultCore {s : St} (I : Inv s) (op : Op) : Clean (stepCore s 
       · exact clean_badOp
   | new k n0 n1 v0 => exact newAt_clean I
   | newEmpty k => exact clean_ok _
-  | newExternal x off n =>
+  | newExternal x off n dm =>
     simp only [stepCore, newExternalAt]
     split
     · exact clean_badOp
